@@ -132,7 +132,8 @@ def record(rng, d):
         else:
             msgs.append(mido.Message(rng.choice(['clock', 'tune_request', 'start'])))
     pb, pt = os.path.join(d, 'b.syx'), os.path.join(d, 't.syx')
-    rec = {'msgs': [[int(b) for b in m.bytes()] for m in msgs], 'binfile': [], 'rbin': [[-1]], 'rtext': [[-1]]}
+    rec = {'msgs': [[int(b) for b in m.bytes()] for m in msgs], 'binfile': [], 'rbin': [[-1]], 'rtext': [[-1]],
+           'rlay': [[-1]]}
     try:
         mido.write_syx_file(pb, msgs)
         mido.write_syx_file(pt, msgs, plaintext=True)
@@ -140,6 +141,15 @@ def record(rng, d):
             rec['binfile'] = list(f.read())
         rec['rbin'] = [[int(b) for b in m.bytes()] for m in mido.read_syx_file(pb)]
         rec['rtext'] = [[int(b) for b in m.bytes()] for m in mido.read_syx_file(pt)]
+        # the same sysex messages as text with another whitespace layout per message
+        pl = os.path.join(d, 'l.syx')
+        with open(pl, 'w', newline='') as f:
+            for m in msgs:
+                if m.type == 'sysex':
+                    f.write(layout_text(list(m.bytes()), rng.choice([1, 2, 3, 4, 5, 6, 8, 9])))
+                    f.write(rng.choice(['', '\n', '\r\n\r\n', ' \t']))
+        rec['rlay'] = [[int(b) for b in m.bytes()] for m in mido.read_syx_file(pl)] \
+            if any(m.type == 'sysex' for m in msgs) else []
     except Exception as e:
         rec['err'] = repr(e)
     return rec
